@@ -63,23 +63,28 @@ fn parse_content(
                         Span::new(base_position + position, base_position + end_position),
                     )
                 })?;
-                let code = if first_char == 'x' {
-                    u32::from_str_radix(&entity[1..], 16)
+                // only digits are allowed: the integer parsers would also
+                // accept a leading sign
+                let (digits, radix) = if first_char == 'x' {
+                    (&entity[1..], 16)
                 } else {
-                    entity.parse::<u32>()
+                    (entity, 10)
                 };
-                let code = code.map_err(|_| {
-                    ParseError::InvalidEntity(
-                        entity.to_string(),
-                        Span::new(base_position + position, base_position + end_position),
-                    )
-                })?;
-                let c = std::char::from_u32(code).ok_or_else(|| {
-                    ParseError::InvalidEntity(
-                        entity.to_string(),
-                        Span::new(base_position + position, base_position + end_position),
-                    )
-                })?;
+                let code = if !digits.is_empty() && digits.chars().all(|c| c.is_digit(radix)) {
+                    u32::from_str_radix(digits, radix).ok()
+                } else {
+                    None
+                };
+                // the character has to be one that is allowed in XML
+                let c = code
+                    .and_then(std::char::from_u32)
+                    .filter(|c| is_xml_char(*c))
+                    .ok_or_else(|| {
+                        ParseError::InvalidEntity(
+                            entity.to_string(),
+                            Span::new(base_position + position, base_position + end_position),
+                        )
+                    })?;
                 result.push(c);
             } else {
                 match entity.as_str() {
@@ -111,6 +116,12 @@ fn parse_content(
     } else {
         Ok(result.into())
     }
+}
+
+// https://www.w3.org/TR/xml/#charsets
+fn is_xml_char(c: char) -> bool {
+    matches!(c,
+        '\u{9}' | '\u{A}' | '\u{D}' | '\u{20}'..='\u{D7FF}' | '\u{E000}'..='\u{FFFD}' | '\u{10000}'..='\u{10FFFF}')
 }
 
 pub(crate) fn serialize_text<'a, N: Normalizer>(
